@@ -189,8 +189,11 @@ impl<'a> Analyzer<'a> {
                 let child_info_truth = self.visit(true_branch)?;
                 let child_info_false = self.visit(false_branch)?;
 
-                min_size = child_info_condition.min_size
-                    + min(child_info_truth.min_size, child_info_false.min_size);
+                // the false branch starts from the position before the condition
+                min_size = min(
+                    child_info_condition.min_size + child_info_truth.min_size,
+                    child_info_false.min_size,
+                );
                 const_size = child_info_condition.const_size
                     && child_info_truth.const_size
                     && child_info_false.const_size
